@@ -1,6 +1,6 @@
 (* C14 - every emitted package is well-formed and convertible. Statements only; proofs in Proofs.v. *)
 From Coq Require Import List NArith ZArith Bool Permutation.
-From Scalibr Require Import Convert.Bytes Convert.Generated_PurlTypes Convert.Purl Convert.Pkg Convert.Index
+From Scalibr Require Import Convert.Bytes Convert.Generated_PurlTypes Convert.Generated_ProtoMeta Convert.Purl Convert.Pkg Convert.Index
   Convert.Proto Convert.Sbom Convert.Proofs.
 Import ListNotations.
 
@@ -81,6 +81,27 @@ Theorem proto_preserves_inventory : forall pstring inv rs,
   zip_ok (proto_spec_ok pstring) inv rs = true.
 Proof. exact packages_to_proto_preserves. Qed.
 Print Assumptions proto_preserves_inventory.
+
+(* setProtoMetadata: every metadata type that extractor sources store into Package.Metadata has a clause in the
+   type switch (both tables regenerated from the Go sources on every run: a metadata struct added without a
+   clause, or a dropped clause, breaks this at proof time). FALSE at full strength on the current tree: *)
+Theorem every_emitted_metadata_type_has_proto_case_refuted :
+  exists t, In t emitted_metadata_types /\ proto_case_of t = None.
+Proof. exact emitted_metadata_has_case_refuted_lemma. Qed.
+Print Assumptions every_emitted_metadata_type_has_proto_case_refuted.
+
+(* ... and holds outside exactly three types (javalockfile.Metadata stored by value by java/pomxmlnet,
+   osv.DepGroupMetadata, standalone netports.Metadata), each of which is emitted and has no clause *)
+Theorem every_emitted_metadata_type_has_proto_case_on_D :
+  forall t, In t emitted_metadata_types -> in_D_meta t = true -> proto_case_of t <> None.
+Proof. exact emitted_metadata_has_case_on_D_lemma. Qed.
+Print Assumptions every_emitted_metadata_type_has_proto_case_on_D.
+
+Theorem metadata_exclusions_exact :
+  forallb (fun t => existsb (meta_type_eqb t) emitted_metadata_types &&
+                    match proto_case_of t with None => true | Some _ => false end) known_no_proto_case = true.
+Proof. exact known_no_proto_case_exact. Qed.
+Print Assumptions metadata_exclusions_exact.
 
 (* ---------------------------------------------------------------- SPDX 2.3 *)
 (* one record per package that has a purl with non-empty name and version (the exact filter), in order,
